@@ -82,7 +82,11 @@ func c15CheckCountersigned(ctx *vfCtx, api, version string, in jv, out []byte, s
 	if !rverify(version, ot, signer, keyID, pub) {
 		ctx.Fail("C15/"+api+"/local-signature-invalid", "returned event carries no valid signature of %s/%s over the event: %s", signer, keyID, out)
 	}
-	if !jequal(ot.without("signatures", "unsigned"), in.without("signatures", "unsigned")) {
+	aside := []string{"signatures", "unsigned"}
+	if vtraits[version].Format == 2 {
+		aside = append(aside, "event_id") // not a member of this event format: dropped on receipt, like unsigned
+	}
+	if !jequal(ot.without(aside...), in.without(aside...)) {
 		ctx.Fail("C15/"+api+"/event-modified", "returned event differs from the input event beyond signatures/unsigned:\n in=%s\nout=%s", jplain(in), out)
 	}
 	if isigs, ok := in.get("signatures"); ok && isigs.K == 'o' {
@@ -108,6 +112,11 @@ func c15SendJoinCheck(ctx *vfCtx, c c15SendJoinCase) {
 	if err != nil {
 		ctx.Unjudged("generator: malformed event")
 		return
+	}
+	if vtraits[c.Version].Format == 2 {
+		// (a member of the older event format that this one does not have: dropped on receipt with unsigned;
+		// the event judged - ID, signatures - is the one without it)
+		ev = ev.without("event_id")
 	}
 	roomID, err := spec.NewRoomID(c.ReqRoom)
 	if err != nil {
@@ -339,6 +348,12 @@ func c15SendJoinGen(t *rapid.T) c15SendJoinCase {
 	c.ReqEventID = raEventID(c.Version, ev)
 	if badEventID {
 		c.ReqEventID = c15FakeEventID(c.Version, "someotherevent")
+	}
+	if vtraits[c.Version].Format == 2 && rapid.IntRange(0, 3).Draw(t, "strayEventID") == 0 {
+		// the body names its own ID (senders that keep the member of the older event format): dropped on
+		// receipt like unsigned, it changes nothing about what was signed
+		ev = ev.with("event_id", jstr(raEventID(c.Version, ev)))
+		c.Faults = append(c.Faults, "body-carries-event_id")
 	}
 	c.Event = vfBytes(jplain(ev))
 	switch rapid.IntRange(0, 19).Draw(t, "infraFault") {
